@@ -191,6 +191,10 @@ def _discharge_sub(b, bb, a, c):
             for sb, cond, taken, succ, other in guard.edges_dominating(b, bb):
                 if is_call(cond, "is_empty") and cond[3] == a[3] and not taken:
                     return "pass", "guarded by !is_empty(%s) (int_len > 0 iff len > 0)" % show(a[3][0])
+    # affine reasoning over the dominating guards (all atoms are unsigned): c <= a follows from one guard, or from two
+    why = _affine_le(c, a, _fresh_relations(b, bb, rels))
+    if why:
+        return "pass", why
     # table
     txt = "%s - %s" % (show(a, False), show(c, False))
     for fname, frag, reason in DECR_TABLE:
@@ -205,6 +209,96 @@ def _discharge_sub(b, bb, a, c):
                                          "empty input (panic with overflow checks)" % txt[:100])
             return "trusted", reason
     return "unmatched", "checked subtraction `%s` is not dominated by a guard implying it cannot underflow" % txt[:140]
+
+
+def _fresh_relations(b, bb, rels):
+    """drop relations about a mutable local that is re-assigned on every path between the guard and the site (a store in a
+    block that dominates the site, other than the local's first definition): `while x > s { x -= l; .. x - s .. }`"""
+    out = []
+    for op, l, r in rels:
+        stale = False
+        for e in (l, r):
+            for x in walk(e):
+                if isinstance(x, tuple) and x[:1] == ("var",) and len(x) > 2:
+                    ds = sorted(d[2:] for d in b.defs.get(x[2], []))
+                    for d in ds[1:]:
+                        if d[0] == bb or b.block_dominates(d[0], bb):
+                            stale = True
+        if not stale:
+            out.append((op, l, r))
+    return out
+
+
+def _lin(e):
+    co, k = mir.linear(mir.strip_casts(e))
+    return co, k
+
+
+def _upper_bounds(e, depth=0):
+    """expressions that are >= e for unsigned operands: min(x, y) <= x, y ; x % m <= x ; x / m <= x ; x - y <= x (when the
+    subtraction itself does not wrap, which is DECR's own obligation at that site); constants fold through + c"""
+    out = [e]
+    if depth > 3:
+        return out
+    if is_call(e, "min") and len(e[3]) == 2:
+        for x in e[3]:
+            out += _upper_bounds(x, depth + 1)
+    elif is_bin(e, "Rem") or is_bin(e, "Div") or is_bin(e, "Shr"):
+        out += _upper_bounds(e[2], depth + 1)
+    elif is_bin(e, "Add"):
+        for x in _upper_bounds(e[2], depth + 1):
+            for y in _upper_bounds(e[3], depth + 1):
+                if (x, y) != (e[2], e[3]):
+                    out.append(("bin", "Add", x, y))
+    elif is_bin(e, "Sub"):
+        for x in _upper_bounds(e[2], depth + 1):
+            if x != e[2]:
+                out.append(("bin", "Sub", x, e[3]))
+    elif e[0] == "cast":
+        out += _upper_bounds(e[1], depth + 1)
+    return out
+
+
+def _affine_le(c, a, rels):
+    """c <= a from the relations `rels` holding at the site; returns a justification or None"""
+    def form(x, y, strict):
+        # x - y (- 0/+...) as lt0 form: x < y  ->  x - y < 0 ; x <= y -> x - y - 1 < 0
+        cx, kx = _lin(x)
+        cy, ky = _lin(y)
+        co = dict(cx)
+        for k2, v in cy.items():
+            co[k2] = co.get(k2, 0) - v
+        return {k2: v for k2, v in co.items() if v}, kx - ky - (0 if strict else 1)
+
+    guards = []
+    for op, l, r in rels:
+        if op == "Lt":
+            guards.append((form(l, r, True), "%s < %s" % (show(l), show(r))))
+        elif op == "Le":
+            guards.append((form(l, r, False), "%s <= %s" % (show(l), show(r))))
+        elif op == "Ne" and r == ("int", 0):
+            guards.append((form(("int", 1), l, False), "%s != 0" % show(l)))
+    for ub in _upper_bounds(c):
+        tco, tk = form(ub, a, False)         # want ub - a - 1 < 0
+        def implied(gs):
+            co = dict(tco)
+            k = tk
+            for (gco, gk), _ in gs:
+                for k2, v in gco.items():
+                    co[k2] = co.get(k2, 0) - v
+                k -= gk
+            slack = len(gs) - 1 if gs else 0      # g1 <= -1 and g2 <= -1 give g1 + g2 <= -2
+            return all(v <= 0 for v in co.values()) and k <= slack and (gs or k < 0 or (k <= 0 and False))
+        if all(v <= 0 for v in tco.values()) and tk < 0:
+            return "%s <= %s holds for unsigned operands%s" % (show(ub), show(a), "" if ub == c else " (and %s <= %s)" % (show(c), show(ub)))
+        for g in guards:
+            if implied([g]):
+                return "guarded by %s%s" % (g[1], "" if ub == c else " (with %s <= %s)" % (show(c)[:40], show(ub)[:40]))
+        for i, g1 in enumerate(guards):
+            for g2 in guards[i + 1:]:
+                if implied([g1, g2]):
+                    return "guarded by %s and %s" % (g1[1], g2[1])
+    return None
 
 
 def _table_premise(b, bb, reason):
@@ -272,14 +366,20 @@ def narrowing(crate):
             continue
         rhs = ("param", b.local_name(2))
         found = False
+        # expression-based (sees through a helper introduced later that wraps the narrowing): every
+        # unwrap_or/map_or(usize::try_from(rhs), D) occurring in the body
+        seenD = []
         for bb, t, fn in b.iter_calls():
             if fn is None:
                 continue
-            e = b.e_call(t)
-            if fn["name"] in ("map_or", "unwrap_or") and e[3] and is_call(e[3][0], "try_from") and e[3][0][3] == (rhs,):
+            for e in walk(b.e_call(t)):
+                if is_call(e, ("map_or", "unwrap_or")) and len(e[3]) >= 2 and is_call(e[3][0], "try_from") and tuple(e[3][0][3]) == (rhs,) \
+                        and e[3][1] not in seenD:
+                    seenD.append(e[3][1])
+        for D in seenD:
+            if True:
                 found = True
-                D = e[3][1]
-                key = "%s|%s default" % (b.key, fn["name"])
+                key = "%s|narrowing default" % b.key
                 isma = (D[0] == "assoc" and D[1] == "MAX" and "usize" in (D[2] or "")) or D == ("int", 2 ** 64 - 1)
                 if isma:
                     res.append((b, key, "pass", "amounts that do not fit usize saturate to usize::MAX (>= every length)"))
